@@ -1,11 +1,12 @@
 #!/usr/bin/env python3
-"""verify_seed.py <ID> <A|B> "<what it breaks / needs>"
+"""verify_seed.py <ID> <A|B|C|D> "<what it breaks / needs>"
 Confirms a seeded change in its scratch worktree (/tmp/wt/<ID>): compiles, vets, passes both existing suites,
 demonstration fails with it and passes without it. On success stores /verif/seeded/<ID>-<X>/{patch.diff,demo/,meta.json}."""
 import json, os, shutil, subprocess, sys
 ID, X = sys.argv[1], sys.argv[2]
 needs = sys.argv[3] if len(sys.argv) > 3 else ""
-wt = f"/tmp/wt/{ID}"; sd = f"/tmp/seed_{ID}"; patch = f"{sd}/{X}.patch"; demo = f"{sd}/demo{X}"
+R2 = X in ("C", "D")  # second seeding round uses its own worktrees and output directories
+wt = f"/tmp/wt2/{ID}" if R2 else f"/tmp/wt/{ID}"; sd = f"/tmp/seed2_{ID}" if R2 else f"/tmp/seed_{ID}"; patch = f"{sd}/{X}.patch"; demo = f"{sd}/demo{X}"
 env = dict(os.environ, GOFLAGS="-mod=mod", GOPROXY="off", GOSUMDB="off", GOTOOLCHAIN="local")
 env.pop("GOWORK", None)
 log = []
@@ -18,7 +19,7 @@ def run(cmd, cwd, timeout=600):
 def fail(msg):
     print(f"SEED {ID}-{X}: REJECTED: {msg}")
     run("git checkout -- . ; rm -f cmd/arcaflow-codegen/codegen", wt)
-    json.dump(log, open(f"/tmp/seed_{ID}/verify_{X}.log.json", "w"), indent=1)
+    json.dump(log, open(f"{sd}/verify_{X}.log.json", "w"), indent=1)
     sys.exit(1)
 run("git checkout -- . && git clean -fdq", wt)
 rc, _ = run(f"git apply {patch}", wt)
